@@ -7,7 +7,7 @@
   * the documented element kinds of a network description, the fields each kind carries and
     the branch each entry stands for;
   * the documented component kinds of a circuit description;
-  * which documents a round trip must preserve.
+  * which documents a round trip must preserve (`Unambiguous`), and what a serialiser can carry (`Plain`).
 -/
 import CC.Model.Load
 namespace CC.Spec.Load
@@ -150,18 +150,19 @@ def PlainO : List (String × J) → Bool
 end
 
 mutual
-/-- a document on which the conversion back has nothing to do and nothing to trip over:
-no dictionary *value* that looks like a complex notation, and every list element is a
-dictionary -/
-def InertO : List (String × J) → Bool
+/-- no dictionary anywhere in the tree — root, dictionary values, list elements — looks like a
+complex notation (such a document is ambiguous by design: the loader would read that
+dictionary as a number) -/
+def Unambiguous : J → Bool
+  | .obj o => !cxLike o && UnambiguousO o
+  | .arr l => UnambiguousL l
+  | _ => true
+def UnambiguousO : List (String × J) → Bool
   | [] => true
-  | (_, .obj o) :: r => !cxLike o && InertO o && InertO r
-  | (_, .arr l) :: r => InertL l && InertO r
-  | _ :: r => InertO r
-def InertL : List J → Bool
+  | (_, v) :: r => Unambiguous v && UnambiguousO r
+def UnambiguousL : List J → Bool
   | [] => true
-  | .obj o :: r => InertO o && InertL r
-  | _ :: _ => false
+  | a :: r => Unambiguous a && UnambiguousL r
 end
 
 end CC.Spec.Load
